@@ -10,6 +10,7 @@ def run(ctx):
     ctx.tlc_mc("", "Mux", "MC_Mux_thorough.cfg" if thorough else "MC_Mux.cfg", workers=16, heap="8g")
     ctx.tlc_expect_violation("", "Mux", "MC_Mux_AsIsIds.cfg", "pinned id allocation: two concurrent NewChannel calls read the same counter value")
     ctx.tlc_expect_violation("", "Mux", "MC_Mux_AsIsAck.cfg", "pinned setup: acknowledgement queued by value, NewChannel's pointer assertion fails")
+    ctx.tlc_expect_violation("", "Mux", "MC_Mux_ConnNr.cfg", "variant with one packet counter for the connection: a channel's packet numbers are not consecutive once two channels send")
     ctx.tlc_expect_violation("", "Mux", "MC_Mux_SetupFirst.cfg", "variant that writes the setup packet before it registers the channel: the reader routes the acknowledgement to nobody")
     # unbounded in the number of creators: distinct ids under the atomic reservation (TLAPS)
     ctx.tlaps("MuxIdsProof")
